@@ -158,6 +158,8 @@ func applyMutation(b []byte, m mutation, first bool) ([]byte, error) {
 		default: // nest
 			return splice(s.lo, strings.Repeat(openers[p%4], m.N)), nil
 		}
+	case "bom":
+		return splice(0, string(bomBytes)), nil
 	case "truncate", "insnul", "insbad", "insustr", "insubc":
 		k := m.Pos
 		if k < 0 || k > len(b) {
